@@ -9,6 +9,9 @@ RUSTFLAGS="--cfg cdshealpix_verif" cargo build --offline --profile chk -q
 if grep -qw bmi2 /proc/cpuinfo; then
   RUSTFLAGS="--cfg cdshealpix_verif -C target-feature=+bmi2" cargo build --offline --release -q --target-dir "$ROOT/harness/target-bmi2"
 fi
+( cd "$ROOT/harness/c20" && RUSTFLAGS="--cfg cdshealpix_verif" cargo build --offline --release -q )
+# warm the Miri build of the interpreter (sysroot + crate), used by the C20 check
+( cd "$ROOT/harness/c20" && RUSTFLAGS="--cfg cdshealpix_verif" MIRIFLAGS="-Zmiri-seed=0" cargo +nightly miri run --offline -q -- seq "0:L0" >/dev/null 2>&1 ) || echo "warning: cargo +nightly miri not usable, the Miri tier of C20 will be skipped"
 "$ROOT/harness/target/release/hpxv" selftest
 if [ -x "$ROOT/extra/setup.sh" ]; then "$ROOT/extra/setup.sh"; fi
 echo "setup done"
